@@ -26,6 +26,13 @@ def hook(name, args):
 
 
 def main():
+    import os
+    # the results go to a private copy of stdout; fd 1 itself is pointed at /dev/null so that nothing the code under test (or input code
+    # it wrongly runs) prints can corrupt them
+    out_fd = os.dup(1)
+    devnull = os.open(os.devnull, os.O_WRONLY)
+    os.dup2(devnull, 1)
+    sys.stdout = open(os.devnull, 'w')
     import python_minifier
     cases = json.load(sys.stdin)
     # warm up: lazy imports done by the package / the interpreter (re, encodings, warnings...) happen here
@@ -49,7 +56,8 @@ def main():
             err = type(e).__name__
         recording[0] = False
         out.append({'error': err, 'events': list(events)})
-    json.dump(out, sys.stdout)
+    with os.fdopen(out_fd, 'w') as f:
+        json.dump(out, f)
 
 
 if __name__ == '__main__':
